@@ -221,7 +221,10 @@ def check_case(case):
                 cnt["unmodelled"] += 1
                 continue
             cnt["calls_executed"] += va["stat"].get("calls", 0)
-            verdict, info = H.compare_traces(va, vb, "multi", "merged")
+            _mk = lambda perturb=False: H.run_ref(multi[""], es, lits, modules=mods_only, perturb=perturb, **caps)
+            verdict, info, cond = H.compare_conditioned(va, vb, "multi", "merged", _mk, lambda: _mk(True))
+            if cond:
+                cnt["ill_conditioned"] = cnt.get("ill_conditioned", 0) + 1
             cnt["effects_compared"] += min(len(va["effects"]), len(vb["effects"]))
             if verdict == "same":
                 cnt["same"] += 1
@@ -239,7 +242,9 @@ def check_case(case):
                 cnt["not_judged"] += 1
             else:
                 cnt["ref_compared"] += 1
-                v2, i2 = H.compare_traces(va, ref)
+                v2, i2, cond = H.compare_conditioned(va, ref, "vm", "ref", ref, lambda: _mk(True))
+                if cond:
+                    cnt["ill_conditioned"] = cnt.get("ill_conditioned", 0) + 1
                 if v2 == "differ":
                     ea = first_event(va)
                     problems.append(dict(signature=dict(monitor="trace", event=i2["kind"], machine_event=(ea or {}).get("event")), detail=dict(info=i2, env=es)))
